@@ -35,7 +35,8 @@ Print Assumptions C12_host_policy.
 Theorem C12_query_token : forall qk iss now tok h,
   query_info qk iss now tok = Some h ->
   exists a c, tok = JCompact a qk c /\ in_list (alg_name a) QUERY_SIG_ALGS = true /\
-              cl_iss c = iss /\ time_ok now c /\ cl_sub c = h.
+              (iss = [] \/ cl_iss c = iss) (* no issuer configured: the issuer is not constrained *) /\
+              time_ok now c /\ cl_sub c = h.
 Proof. exact query_info_sound. Qed.
 Print Assumptions C12_query_token.
 
